@@ -308,7 +308,7 @@ pub fn run(cx: &Ctx) {
         let kind = kind_of(ty);
         let ty = ty.to_string();
         let max_ops = cx.by(30, 80);
-        cx.run_pt(&Identity, cx.by(800, 10000), cx.workers.min(8), move || {
+        cx.run_pt(&Identity, cx.by(800, 40000), cx.workers.min(8), move || {
             let ty = ty.clone();
             vec(op_strategy(kind), 0..max_ops).prop_map(move |ops| H11 { ty: ty.clone(), ops })
         }, "histories of 0..30 (thorough 80) operations over 3 estimators, values over the C01 domain");
